@@ -200,10 +200,54 @@ pub fn inverse_structured(ctx: &Ctx, rep: &mut Report) {
                 }
             }
         }
+        // forward transform on sparse inputs (monomials c x^k and two-term polynomials): the
+        // butterflies then meet (0, x) and (x, 0) pairs with x running over many residues;
+        // oracle: linearity against the forward impulse responses
+        let mut fbasis: Vec<Vec<i64>> = Vec::with_capacity(n);
+        for i in 0..n {
+            let mut e = vec![0i16; n];
+            e[i] = 1;
+            match monitored(move || vh::ntt(&e)) {
+                Ok(col) => fbasis.push(col.iter().map(|&x| x as i64).collect()),
+                Err(p) => {
+                    rep.violation(&format!("panic:ntt@{}", short_loc(&p.location)), format!("n={}: impulse {}: {}", n, i, p.message), json!({"kind": "fwd", "n": n, "terms": [[i, 1]]}));
+                    return;
+                }
+            }
+        }
+        for it in 0..ctx.sz(4000, 120_000) {
+            rep.evaluations += 1;
+            let nterms = if it % 4 == 3 { 2 } else { 1 };
+            let terms: Vec<(usize, i64)> = (0..nterms).map(|_| (rng.gen_range(0..n), if it % 16 == 0 { [1, 2, 3, Q - 1, Q - 2, (Q - 1) / 2, (Q + 1) / 2][rng.gen_range(0..7)] } else { rng.gen_range(1..Q) })).collect();
+            let mut v = vec![0i16; n];
+            for &(k, c) in &terms {
+                v[k] = c as i16;
+            }
+            let v2 = v.clone();
+            let rj = || json!({"kind": "fwd", "n": n, "terms": terms.iter().map(|&(k, c)| vec![k as i64, c]).collect::<Vec<_>>()});
+            match monitored(move || vh::ntt(&v2)) {
+                Err(p) => rep.violation(&format!("panic:ntt@{}", short_loc(&p.location)), format!("n={} sparse {:?}: {}", n, terms, p.message), rj()),
+                Ok(got) => {
+                    let mut want = vec![0i64; n];
+                    for (i, &c) in v.iter().enumerate() {
+                        if c != 0 {
+                            for j in 0..n {
+                                want[j] += c as i64 * fbasis[i][j];
+                            }
+                        }
+                    }
+                    if got.iter().zip(want.iter()).any(|(&g, &w)| g as i64 != w.rem_euclid(Q)) {
+                        rep.violation("ntt:forward-not-linear", format!("ntt of the sparse polynomial {:?} (position, coefficient) differs from the combination of its impulse responses, n={}", terms, n), rj());
+                    }
+                }
+            }
+            rep.count("sparse_forward_transforms", 1);
+        }
         rep.count("inverse_sizes", 1);
     });
     rep.merge(r);
     rep.require("inverse_sizes", 10);
+    rep.require("sparse_forward_transforms", 10_000);
     rep.sample(json!({"what": "intt on block-structured transform-domain vectors", "block_sizes": [2, 4, 8, 16, 32, 64, 128], "oracle": "linearity against impulse responses + round trip"}));
 }
 
@@ -252,6 +296,50 @@ pub fn cross_size(ctx: &Ctx, rep: &mut Report) {
         }
         rep.count("cross_size_walks", 1);
     }
+    // call histories in FRESH threads (per-thread tables start empty): random sequences of
+    // (operation, size); patterns put the inverse first, or the product first at a large size
+    let nh = ctx.sz(200, 4000);
+    let r = par_for(nh, ncpu(), |hi, rep| {
+        let vseed = ctx.seed;
+        let out = std::thread::scope(|s| {
+            s.spawn(move || {
+                let mut rep = Report::new();
+                let mut rng = rng_for(vseed, &format!("c11-hist-{}", hi));
+                let len = match hi % 4 {
+                    0 => 2,
+                    1 => 4,
+                    _ => 10,
+                };
+                for st in 0..len {
+                    let n = 1usize << rng.gen_range(0..=10);
+                    let a: Vec<i64> = (0..n).map(|_| rng.gen_range(0..Q)).collect();
+                    let b: Vec<i64> = (0..n).map(|_| rng.gen_range(0..Q)).collect();
+                    if (hi + st) % 3 == 0 {
+                        // inverse before any forward transform at this size
+                        let v: Vec<i16> = a.iter().map(|&x| x as i16).collect();
+                        let v2 = v.clone();
+                        rep.evaluations += 1;
+                        match monitored(move || vh::ntt(&vh::intt(&v2))) {
+                            Ok(back) if back == v => {}
+                            Ok(_) => rep.violation("ntt:inverse-roundtrip", format!("ntt(intt(v)) != v for n={} inside a call history (history {} step {})", n, hi, st), json!({"kind": "inv", "v": v})),
+                            Err(p) => rep.violation(&format!("panic:intt@{}", short_loc(&p.location)), format!("n={}: {}", n, p.message), json!({"kind": "inv", "v": v})),
+                        }
+                    }
+                    check_pair(&a, &b, "call history", &mut rep);
+                }
+                rep.count("call_histories", 1);
+                rep.nontrivial(format!("hist|{}", hi).as_bytes());
+                rep
+            })
+            .join()
+        });
+        match out {
+            Ok(r) => rep.merge(r),
+            Err(_) => rep.inconclusive("a history thread died".into()),
+        }
+    });
+    rep.merge(r);
+    rep.require("call_histories", 50);
     rep.sample(json!({"walks": rounds, "sizes": sizes, "inputs": "the same low-degree coefficients embedded in every length, in one thread"}));
     rep.require("cross_size_walks", 3);
 }
@@ -259,6 +347,28 @@ pub fn cross_size(ctx: &Ctx, rep: &mut Report) {
 pub fn replay(r: &Value) -> bool {
     let mut rep = Report::new();
     match r["kind"].as_str().unwrap_or("") {
+        "fwd" => {
+            let n = r["n"].as_u64().unwrap_or(2) as usize;
+            let mut v = vec![0i16; n];
+            for t in r["terms"].as_array().unwrap() {
+                v[t[0].as_u64().unwrap() as usize] = t[1].as_i64().unwrap() as i16;
+            }
+            let got = vh::ntt(&v);
+            let mut want = vec![0i64; n];
+            for (i, &c) in v.iter().enumerate() {
+                if c != 0 {
+                    let mut e = vec![0i16; n];
+                    e[i] = 1;
+                    for (j, x) in vh::ntt(&e).iter().enumerate() {
+                        want[j] += c as i64 * *x as i64;
+                    }
+                }
+            }
+            rep.evaluations += 1;
+            if got.iter().zip(want.iter()).any(|(&g, &w)| g as i64 != w.rem_euclid(Q)) {
+                rep.violation("ntt:forward-not-linear", "replayed".into(), r.clone());
+            }
+        }
         "inv" => {
             let v: Vec<i16> = r["v"].as_array().unwrap().iter().map(|x| x.as_i64().unwrap() as i16).collect();
             let v2 = v.clone();
